@@ -433,9 +433,9 @@ func init() {
 		var updEvents, noopCalls, failedCalls, events int64
 		cfg := e1.Config{
 			ReplayNames: c.ReplayCalls(),
-			Alphabet: alpha,
-			Depth:    depth,
-			Key:      func(w *world.World) string { return w.Key() },
+			Alphabet:    alpha,
+			Depth:       depth,
+			Key:         func(w *world.World) string { return w.Key() },
 			Before: func(w *world.World, path []int) interface{} {
 				return c08Take(w.Engine.Catalog())
 			},
